@@ -44,7 +44,7 @@ TOKENS = ["{", "}", "(", ")", ":", "$", "@", "...", "!", "=", "[", "]", "a", "on
           '"s"', "null"]
 FAULT_DOC = "{ a nn t { a b t { a } } l { a } x: b(x: 2) }"
 FAULT_PATHS = [("a",), ("nn",), ("t",), ("t", "a"), ("t", "b"), ("t", "t"), ("l",), ("l", 0, "a"), ("x",)]
-FAULT_KINDS = ["raise", "raise_te", "raise_te_ctor", "raise_shared", "return_exc", "none", "value", "raise_msgattr", "raise_coercible"]
+FAULT_KINDS = ["raise", "raise_te", "raise_te_ctor", "raise_shared", "return_exc", "none", "value", "raise_msgattr", "raise_coercible", "raise_keyerror"]
 COERCERS = ("default", "recording", "replacing", "suspending", "returning-none", "returning-empty-dict", "annotating")
 
 
